@@ -88,14 +88,16 @@ pub fn roundtrip_u32(c: usize, r: usize) {
     end_reached!();
 }
 
-/// A symbolic window of a pc x pr TooDee<u32>, serialised through TooDeeView (mutable = false)
+/// A window of a pc x pr TooDee<u32>, serialised through TooDeeView (mutable = false)
 /// or TooDeeViewMut (true); the result must equal an owned copy of the view.
-pub fn roundtrip_view(pc: usize, pr: usize, mutable: bool) {
+pub fn roundtrip_view(pc: usize, pr: usize, sc: usize, sr: usize, ec: usize, er: usize, mutable: bool) {
     let cells = cells_u32();
     let mut v = Vec::with_capacity(pc * pr);
     v.extend_from_slice(&cells[..pc * pr]);
     let mut t = TooDee::from_vec(pc, pr, v);
-    let (s, e) = window(pc, pr);
+    // concrete window: the view serialisers collect their cells into a Vec whose length would
+    // otherwise be symbolic
+    let (s, e) = ((sc, sr), (ec, er));
     let z = window_size(s, e);
     let mut doc = Doc::empty();
     if mutable {
